@@ -197,7 +197,9 @@ func raceC13(seed uint64, dir string) error {
 		r := q.Reader()
 		got := 0
 		buf := make([]byte, 8192)
-		for spins := 0; got < total && spins < 200000; spins++ {
+		// no spin limit: under load the producer may be slow; a real hang is caught
+		// by the per-run watchdog in RaceMain
+		for got < total {
 			if err := r.Begin(); err != nil {
 				cerr = err
 				return
@@ -254,7 +256,7 @@ func raceC13(seed uint64, dir string) error {
 				if prodDone.Load() && int64(got) >= atomic.LoadInt64(&flushed) {
 					break
 				}
-				perturb(cr)
+				time.Sleep(50 * time.Microsecond)
 			}
 		}
 		if got != total && perr == nil {
